@@ -4,8 +4,10 @@ package main
 
 import (
 	"bufio"
+	"context"
 	"crypto/sha256"
 	"encoding/base64"
+	"encoding/hex"
 	"encoding/json"
 	"flag"
 	"fmt"
@@ -92,6 +94,13 @@ type authObs struct {
 	StoreKeysBefore  int                 `json:"store_keys_before,omitempty"`
 	StoreKeysAfter   int                 `json:"store_keys_after,omitempty"`
 	ClearsLogin      bool                `json:"clears_login,omitempty"`
+	// the store around a callback: key -> digest of the stored value, for every live entry; and whether the session whose cookie the
+	// browser sent along with the callback ("held") answered /oauth2/session with 200 before / after it ("" = no such cookie sent)
+	StoreBefore map[string]string `json:"store_before,omitempty"`
+	StoreAfter  map[string]string `json:"store_after,omitempty"`
+	HeldKey     string            `json:"held_session_key,omitempty"`
+	HeldBefore  string            `json:"held_session_works_before,omitempty"`
+	HeldAfter   string            `json:"held_session_works_after,omitempty"`
 	// behaviour of the pushed-authorization endpoint during this login (PAR configurations only)
 	ParMode         string   `json:"par_mode,omitempty"`         // what the driver arranged
 	ParReplies      []string `json:"par_replies,omitempty"`      // what the endpoint answered to each attempt that reached it ("ok" or the fault)
@@ -201,6 +210,8 @@ type authRun struct {
 	rnd              int
 	win, wimpl, wobs *bufio.Writer
 	n                int
+	held             *loginResult // the session this browser already has (callback lattice, sess=1)
+	nheld            int
 }
 
 func (r *authRun) obs(o authObs) {
@@ -507,6 +518,91 @@ func (r *authRun) storeKeys() int {
 	return n
 }
 
+// storeContents: every live store entry, key -> digest of the stored (encrypted) value.
+func (r *authRun) storeContents() map[string]string {
+	r.s.gmem.mu.Lock()
+	var keys []string
+	for k := range r.s.gmem.keys {
+		keys = append(keys, k)
+	}
+	r.s.gmem.mu.Unlock()
+	out := map[string]string{}
+	for _, k := range keys {
+		if v, err := r.s.gmem.inner.Read(nil, k); err == nil {
+			sum := sha256.Sum256(v.Ciphertext)
+			out[k] = hex.EncodeToString(sum[:12])
+		}
+	}
+	return out
+}
+
+// storeTerms renders the store before and after in the model's syntax: keys numbered in sorted order over both snapshots and the
+// key the provider's answer would create; values numbered by content in order of first appearance in the snapshot before; a value
+// that was not in the store before prints as 0.
+func storeTerms(before, after map[string]string, newKey string) (tb, ta string, newk int) {
+	names := map[string]bool{}
+	for k := range before {
+		names[k] = true
+	}
+	for k := range after {
+		names[k] = true
+	}
+	if newKey != "" {
+		names[newKey] = true
+	}
+	var sorted []string
+	for k := range names {
+		sorted = append(sorted, k)
+	}
+	sort.Strings(sorted)
+	kid := map[string]int{}
+	for i, k := range sorted {
+		kid[k] = i + 1
+	}
+	vid := map[string]int{}
+	for _, k := range sorted {
+		if v, ok := before[k]; ok {
+			if _, seen := vid[v]; !seen {
+				vid[v] = len(vid) + 1
+			}
+		}
+	}
+	render := func(m map[string]string) string {
+		var l []string
+		for _, k := range sorted {
+			if v, ok := m[k]; ok {
+				l = append(l, fmt.Sprintf("%d:%d", kid[k], vid[v]))
+			}
+		}
+		if len(l) == 0 {
+			return "-"
+		}
+		return strings.Join(l, ",")
+	}
+	return render(before), render(after), kid[newKey]
+}
+
+// sessionWorks: the session behind this cookie answers the session endpoint with 200.
+func (r *authRun) sessionWorks(cookieVal string) bool {
+	req := httptest.NewRequest("GET", "http://"+r.c.ingresses[0][1]+r.c.ingresses[0][2]+"/oauth2/session", nil)
+	req.AddCookie(&http.Cookie{Name: cookie.Session, Value: cookieVal})
+	return r.s.serveMain(req).Code == http.StatusOK
+}
+
+// ensureHeld: this browser holds the cookie of a session that exists in the store and works (an ordinary earlier login).
+func (r *authRun) ensureHeld() error {
+	if r.held != nil && r.sessionWorks(r.held.cookie) {
+		return nil
+	}
+	r.nheld++
+	lr, err := r.s.login(fmt.Sprintf("held-%d", r.nheld), r.c.acrDef)
+	if err != nil {
+		return err
+	}
+	r.held = lr
+	return nil
+}
+
 func symFields(a []atoms, f map[string]string) string {
 	var l []string
 	for k, v := range f {
@@ -526,9 +622,16 @@ func symFields(a []atoms, f map[string]string) string {
 	return strings.Join(l, ",")
 }
 
-func (r *authRun) callbackCase(stateSel, codeSel, issSel, errSel, ckSel int, other *verifx.Crypter) {
+// sessSel 1: the browser already holds a valid session whose cookie travels with the callback request (the store contains it, and
+// another user's session); 0: no session cookie.
+func (r *authRun) callbackCase(stateSel, codeSel, issSel, errSel, ckSel, sessSel int, other *verifx.Crypter) error {
 	host := r.c.ingresses[0][1]
 	base := r.c.ingresses[0][2]
+	if sessSel == 1 {
+		if err := r.ensureHeld(); err != nil {
+			return err
+		}
+	}
 	A := r.login(host, "", base+"/oauth2/login", nil, false)
 	B := r.login(host, "", base+"/oauth2/login", nil, false)
 	lstate, lcookie, lfields := r.logout(host, base+"/oauth2/logout", "/after", false)
@@ -547,8 +650,9 @@ func (r *authRun) callbackCase(stateSel, codeSel, issSel, errSel, ckSel int, oth
 		}
 		return "s" + hx(v)
 	}
-	codeA := r.s.idp.authorize(A.params, fmt.Sprintf("sid-%d", 2*r.n+1), r.c.acrDef)
-	codeB := r.s.idp.authorize(B.params, fmt.Sprintf("sid-%d", 2*r.n+2), r.c.acrDef)
+	sidA, sidB := fmt.Sprintf("sid-%d", 2*r.n+1), fmt.Sprintf("sid-%d", 2*r.n+2)
+	codeA := r.s.idp.authorize(A.params, sidA, r.c.acrDef)
+	codeB := r.s.idp.authorize(B.params, sidB, r.c.acrDef)
 	q := url.Values{}
 	var state, code, iss, errp string
 	switch stateSel {
@@ -639,17 +743,49 @@ func (r *authRun) callbackCase(stateSel, codeSel, issSel, errSel, ckSel int, oth
 		setCk(r.s.craftRaw("not json at all"))
 		ckModel = "nonjson:1"
 	}
+	heldBefore, heldAfter, heldKey := "", "", ""
+	if sessSel == 1 {
+		req.AddCookie(&http.Cookie{Name: cookie.Session, Value: r.held.cookie})
+		heldBefore, heldKey = "yes", r.s.sessionKey(r.held.sid) // ensureHeld has just seen it answer 200
+	}
+	// the key under which the provider's answer to the presented code would create a session
+	newKey := ""
+	switch code {
+	case codeA:
+		newKey = r.s.sessionKey(sidA)
+	case codeB:
+		newKey = r.s.sessionKey(sidB)
+	}
 	r.s.idp.mu.Lock()
 	logLen := len(r.s.idp.log)
 	r.s.idp.mu.Unlock()
 	before := r.storeKeys()
+	contentsBefore := r.storeContents()
 	rec := r.s.serveMain(req)
 	after := r.storeKeys()
+	contentsAfter := r.storeContents()
+	if sessSel == 1 {
+		heldAfter = "no"
+		if r.sessionWorks(r.held.cookie) {
+			heldAfter = "yes"
+		}
+	}
+	termBefore, termAfter, newk := storeTerms(contentsBefore, contentsAfter, newKey)
+	// the sessions created by the lattice's own successful callbacks do not accumulate (the snapshots stay small)
+	for k := range contentsAfter {
+		if _, was := contentsBefore[k]; !was {
+			r.s.gmem.inner.Delete(context.Background(), k)
+			r.s.gmem.mu.Lock()
+			delete(r.s.gmem.keys, k)
+			r.s.gmem.mu.Unlock()
+		}
+	}
 	// observations
 	back := "-"
 	tokOK := 0
 	o := authObs{Kind: "callback", Status: rec.Code, Browser: browserVisible(rec), StoreKeysBefore: before, StoreKeysAfter: after,
-		Case: fmt.Sprintf("state=%d code=%d iss=%d err=%d cookie=%d isssup=%d", stateSel, codeSel, issSel, errSel, ckSel, bi(r.c.opts.issParam))}
+		Case:        fmt.Sprintf("state=%d code=%d iss=%d err=%d cookie=%d isssup=%d sess=%d", stateSel, codeSel, issSel, errSel, ckSel, bi(r.c.opts.issParam), sessSel),
+		StoreBefore: contentsBefore, StoreAfter: contentsAfter, HeldKey: heldKey, HeldBefore: heldBefore, HeldAfter: heldAfter}
 	r.s.idp.mu.Lock()
 	for _, e := range r.s.idp.log[logLen:] {
 		if e.Kind == "code" {
@@ -687,12 +823,14 @@ func (r *authRun) callbackCase(stateSel, codeSel, issSel, errSel, ckSel int, oth
 	o.SessionCookieSet, o.ClearsLogin = sessSet, clears
 	session := bi(sessSet && after > before)
 	status := rec.Code
-	line := fmt.Sprintf("acallback %s | %s %s %s %s %s | %d 0", r.c.line(), symOf(q.Get("state")), "s"+hx(q.Get("code")), "s"+hx(iss), "s"+hx(q.Get("error")), ckModel, tokOK)
-	impl := fmt.Sprintf("status=%d back=%s session=%d clears=%d", status, back, session, bi(clears))
+	line := fmt.Sprintf("acallback %s | %s %s %s %s %s | %d 0 | %s %d", r.c.line(), symOf(q.Get("state")), "s"+hx(q.Get("code")), "s"+hx(iss), "s"+hx(q.Get("error")), ckModel, tokOK,
+		termBefore, newk)
+	impl := fmt.Sprintf("status=%d back=%s session=%d clears=%d store=%s", status, back, session, bi(clears), termAfter)
 	fmt.Fprintln(r.win, line)
 	fmt.Fprintln(r.wimpl, impl)
 	r.obs(o)
 	r.n++
+	return nil
 }
 
 // ---------------------------------------------------------------- driver
@@ -826,6 +964,16 @@ func runAuth(args []string) error {
 						rerr = err
 						return
 					}
+					// another user's session is in the store throughout (the store is never empty)
+					if _, err := r.s.login("other-user-1", ""); err != nil {
+						rerr = err
+						return
+					}
+					// the callback that passes every check with attempt A's cookie
+					good := [5]int{2, 2, 0, 0, 3}
+					if issSup {
+						good[2] = 1
+					}
 					for st := 0; st <= 5; st++ {
 						for cd := 0; cd <= 3; cd++ {
 							for is := 0; is <= 6; is++ {
@@ -834,10 +982,25 @@ func runAuth(args []string) error {
 										if is > 2 && *tier != "thorough" && (!issSup || er != 0) {
 											continue // near-miss issuers: quick tier only where the iss parameter is checked and no error parameter masks it
 										}
-										if !secret && (st+cd+is+er+ck)%3 != 0 && *tier != "thorough" {
-											continue // the private-key variant samples a third in the quick tier
+										if !(!secret && (st+cd+is+er+ck)%3 != 0 && *tier != "thorough") { // the private-key variant samples a third in the quick tier
+											if rerr = r.callbackCase(st, cd, is, er, ck, 0, &other); rerr != nil {
+												return
+											}
 										}
-										r.callbackCase(st, cd, is, er, ck, &other)
+										// the same callback from a browser that already holds a valid session (its cookie is sent along): quick tier, the
+										// good callback and every point that deviates from it in at most two dimensions (private-key variant: one);
+										// thorough, the whole lattice (private-key variant: two)
+										dev := 0
+										for i, v := range [5]int{st, cd, is, er, ck} {
+											if v != good[i] {
+												dev++
+											}
+										}
+										if dev <= 1 || (dev == 2 && (secret || *tier == "thorough")) || (*tier == "thorough" && secret) {
+											if rerr = r.callbackCase(st, cd, is, er, ck, 1, &other); rerr != nil {
+												return
+											}
+										}
 									}
 								}
 							}
